@@ -1,1 +1,2 @@
 pub mod bulkhead;
+pub mod ratelimiter;
